@@ -527,7 +527,10 @@ DecodeHP(ep, f) ==
       sizeBefore == IF first > 1 THEN tsu[first - 1] ELSE ep.decSize          \* the updates in front of the refused one were applied
       size == IF tsu = <<>> THEN ep.decSize ELSE tsu[Len(tsu)]
       listSize == ListSize(f.h) + (IF f.blk = "big" THEN BigField ELSE 0)
-  IN IF f.blk = "bad" THEN [x |-> PE, size |-> ep.decSize]
+      \* a block given as octets (bp): h holds the fields in front of the representation the decoder refuses; the decoder
+      \* checks the running list size after every field, so an over-long list is reported before the bad octets are reached
+      prefixOver == "bp" \in DOMAIN f /\ f.bp /\ ep.hdrCap >= 0 /\ ListSize(f.h) > ep.hdrCap
+  IN IF f.blk = "bad" THEN [x |-> IF prefixOver THEN Exc("DenialOfServiceError", 11) ELSE PE, size |-> ep.decSize]
      ELSE IF over THEN [x |-> PE, size |-> sizeBefore]
      ELSE IF ep.hdrCap >= 0 /\ listSize > ep.hdrCap THEN [x |-> Exc("DenialOfServiceError", 11), size |-> size]
      ELSE IF UGt(size, ep.decMax) THEN [x |-> PE, size |-> size]
